@@ -115,12 +115,18 @@ TEXTS = (
     "l1\nl2", "\n", " ", "tab\tx", "100%", "->", "<-", "<=>", u"€", "a<", ">b", "</ b>", "<1>",
 )
 # independent tokenizer of the documented tag syntax: <name-or-spec>, </name-or-spec>, </>
-TAG_TOKEN = re.compile(r"</?[A-Za-z][A-Za-z0-9,_=;-]*>|</>")
+TAG_TOKEN = re.compile(r"(?<!\\)(?:</?[A-Za-z][A-Za-z0-9,_=;-]*>|</>)")
+# escaped tags: a backslash makes the tag text (the backslash itself is markup)
+ESCAPED = ("<b>", "</b>", "<info>", "</info>", "</>", "<fg=red>", "<foo>", "</error>")
 MARKUP_LEAK = re.compile(r"(?i)</?(?:%s)>|</>|<(?:fg|bg|options)=[^<>]*>" % "|".join(NAMED))
 
 
 def n_text(s):
     return ("t", s)
+
+
+def n_esc(tag):
+    return ("x", tag)
 
 
 def n_tag(kind, name, closer, children):
@@ -134,6 +140,9 @@ def render(nodes):
     for n in nodes:
         if n[0] == "t":
             mk.append(n[1])
+            pl.append(n[1])
+        elif n[0] == "x":
+            mk.append("\\" + n[1])
             pl.append(n[1])
         else:
             _g, kind, name, closer, children = n
@@ -168,7 +177,10 @@ def gen_nodes(rng, depth):
     out = []
     for _ in range(rng.randint(1, 4)):
         if depth >= 3 or rng.random() < 0.45:
-            out.append(n_text(rng.choice(TEXTS)))
+            if rng.random() < 0.12:
+                out.append(n_esc(rng.choice(ESCAPED)))
+            else:
+                out.append(n_text(rng.choice(TEXTS)))
         else:
             x = rng.random()
             if x < 0.5:
@@ -207,6 +219,13 @@ def core_messages():
             yield [n_tag("named", a, "</>", [n_tag("named", b, "</>", [n_text("y")])])]
     for tx in TEXTS:
         yield [n_text(tx)]
+    # escaped tags alone, inside every tag form, and next to text
+    for e in ESCAPED:
+        yield [n_esc(e)]
+        yield [n_text("a "), n_esc(e), n_text(" b")]
+        for kind, nm, c in forms:
+            yield [n_tag(kind, nm, c, [n_text("a "), n_esc(e), n_text(" b")])]
+            yield [n_tag(kind, nm, c, [n_esc(e)])]
 
 
 def check_message(markup, plain):
@@ -760,8 +779,8 @@ def indent_case(mode, scopes):
 
 
 def _bounded_indent(ctx):
-    exh_widths = (0, 3)
-    smp_widths = (0, 2, 5, 8)
+    exh_widths = (0, 1, 3)
+    smp_widths = (0, 1, 2, 5, 8)
     exh_level = [(k, w, e) for k in SCOPE_KINDS for w in exh_widths for e in ("normal", "exception")]
     smp_level = [(k, w, e) for k in SCOPE_KINDS for w in smp_widths for e in ("normal", "exception")]
     max_exh = 2 if ctx.quick else 4
